@@ -116,6 +116,7 @@ def run_case(prop, case, tier="quick"):
     sc = scenario(prop)
     ctx = Ctx(prop, tier)
     seams.reset_environment()
+    ctx.event("case", hashlib.sha256(jdump(case).encode()).hexdigest()[:16])
     try:
         sc.execute(case, ctx)
     finally:
